@@ -15,7 +15,10 @@ LEVEL = 'proof'
 def make_case(rng):
     mode = rng.choice(['same_lines', 'overlap', None, None])
     ntw = rng.choice([1, 1, 2, 3]) if mode else 1
-    prog = progs.gen_program(rng, twins=True, twin_mode=mode, ntwins=ntw)
+    r3 = rng.fork('inner-windows')
+    inner = r3.chance(1, 4)
+    # some programs switch the profiler on and off inside their own bodies (`with prof:` blocks): frames then begin and end unobserved
+    prog = progs.gen_program(rng, twins=True, twin_mode=mode, ntwins=ntw, opts={'windows': True} if inner else None)
     names = [n for (_f, n, _k) in prog['funcs']]
     k = rng.below(len(names)) + 1
     reg = sorted(set(rng.sample(names, k)), key=names.index)
@@ -40,6 +43,8 @@ def make_case(rng):
     calls = [['call', rng.below(7)] for _ in range(rng.below(2) + 1)]
     if readds and rng.chance(1, 2):
         steps = adds + [['enbc'], calls[0], ['disbc']] + readds + [['enbc']] + calls + [['disbc'], ['snapshot']]
+    elif inner and 'inner-window' in prog['features'] and r3.chance(2, 3):
+        steps = adds + readds + calls + calls + [['snapshot']]           # no outer window at all: only the programs' own `with prof:` blocks
     else:
         steps = adds + readds + [['enbc']] + calls + [['disbc'], ['snapshot']]
     return {'prog': prog, 'steps': steps, 'mode': 'window', 'registered': reg, 'twin_mode': mode}
@@ -76,6 +81,16 @@ def oracle(r, nwindows=1):
                 out.setdefault(lab, {})[line] = out.get(lab, {}).get(line, 0) + n
         return out
     own = tab(r['oracle'])
+    # a disable() that arrives while a registered function is still executing a line throws that pending line away: the interpreter's
+    # line events minus those (kept apart by the recorder) are what the function's entry should hold
+    for key, n in r.get('dropped', {}).items():
+        lab, line = map(int, key.split(':'))
+        if own.get(lab, {}).get(line):
+            own[lab][line] -= n
+            if own[lab][line] <= 0:
+                del own[lab][line]
+                if not own[lab]:
+                    del own[lab]
     if real == own:
         return 'ok', None
     both = tab(r['oracle'])
@@ -148,7 +163,9 @@ def run(ctx):
         dist['twin_mode'][str(case.get('twin_mode'))] = dist['twin_mode'].get(str(case.get('twin_mode')), 0) + 1
         dist['pair_registration'][pr] = dist['pair_registration'].get(pr, 0) + 1
         nwin = sum(1 for st in case['steps'] if st[0] == 'disbc')
-        status, det = ('skip', None) if r['midflight_disable'] else oracle(r, nwin)
+        status, det = oracle(r, nwin)
+        if status == 'bad' and r['midflight_disable'] and (r['reentrant'] or r['alias']):
+            status, det = 'skip', None        # re-entrancy / aliasing together with interrupted lines: the per-bytecode slot of the recorder is not exact there
         if status == 'bad' and model_block_clash(r) and not corelib.compare_case(r):
             status = 'padding-clash'
         dist['status'][status] = dist['status'].get(status, 0) + 1
@@ -161,6 +178,17 @@ def run(ctx):
         elif status == 'bad':
             ctx.fail('reported hits are not those of the function\'s own executions',
                      {'finding_class': None, 'case': case, 'differences': det[:20]})
+        if getattr(ctx, 'driver_ok', True) and not r['reentrant'] and not r['alias']:
+            # the model's `dropped` (C01.profiler_hits_conserved) against the pending lines the recorder saw thrown away by disable()
+            acct = [x for x in r.get('model_out', []) if x.startswith('acct')]
+            if acct:
+                md = {k: v[1] for k, v in corelib.parse_acct(acct[-1]).items() if v[1]}
+                rd = {}
+                for key, n in r.get('dropped', {}).items():
+                    lab, line = map(int, key.split(':'))
+                    rd[(lab, line)] = n
+                if md != rd:
+                    ctx.broken.append(('K04 correspondence (dropped pending lines)', 'model %s recorder %s case=%s' % (sorted(md.items())[:6], sorted(rd.items())[:6], corelib.case_digest(case))))
         if getattr(ctx, 'driver_ok', True):
             diffs = corelib.compare_case(r)
             if diffs:
